@@ -316,18 +316,19 @@ impl SecondaryStorage {
                     table_id,
                     rowset_id: *rowset_id,
                 }));
+            }
+        }
 
-                if let Some(dvs) = pin_version
-                    .snapshot
-                    .get_dvs_of(table_id.table_id, *rowset_id)
-                {
-                    for dv_id in dvs {
-                        changeset.push(EpochOp::DeleteDV(DeleteDVEntry {
-                            table_id,
-                            dv_id: *dv_id,
-                            rowset_id: *rowset_id,
-                        }));
-                    }
+        // Every DV of the table has to go, including the DVs of RowSets that compaction has already
+        // merged away: a DV that outlives its table makes the next bootstrap fail.
+        if let Some(dvs) = pin_version.snapshot.get_all_dvs_of(table_id.table_id) {
+            for (rowset_id, dv_ids) in dvs {
+                for dv_id in dv_ids {
+                    changeset.push(EpochOp::DeleteDV(DeleteDVEntry {
+                        table_id,
+                        dv_id: *dv_id,
+                        rowset_id: *rowset_id,
+                    }));
                 }
             }
         }
